@@ -346,6 +346,7 @@ def run_tree(chk, model):
         impl.append(out)
         chk.count(("tree", c["ops"]))
         chk.hist("tree_ops", len(c["ops"]))
+        chk.hist("tree_result", "ok" if out[0] == 0 else "raise%d" % out[1])
         tree_oracle(chk, c, out)
     chk.sample({"suite": "TREE", "ops": cases[len(cases) // 2]["ops"], "impl": impl[len(cases) // 2]})
     if model:
@@ -607,6 +608,9 @@ def run_observer(chk, model):
         chk.hist("observer_events", len(c["events"]) // 10 * 10)
         chk.hist("observer_quiet", c["quiet"])
         chk.hist("observers", len(c["confs"]))
+        for o in outs:
+            chk.hist("observer_outcome", {0: "verdict", 1: "none"}.get(o[0]) or "raise%d" % o[1])
+        chk.hist("serialize", "ok" if impl[-1][3][0] == 0 else "raise%d" % impl[-1][3][1])
         if c["strict"] and c["prefix_free"] and c["confs"] \
                 and all(cf[0] == c["quiet"] for cf in c["confs"]):
             chk.hist("observer_oracle", "checked")
